@@ -51,7 +51,15 @@ FileHeaps ==
                                      <<"sample", "graph", "txt", "s1-s2; s2-s3">>>>),
    HG(F23tax, "csc", "F23gmd", <<<<"observation", "tree", "newick", "(o1,o2);">>>>)}
 JsonHeaps == FileHeaps \cup {H1(F23json, "dense", "F23json")}
-HeapSets == [files |-> FileHeaps, json |-> JsonHeaps,std |-> MCInitHeaps, eq |-> EqHeaps, all |-> MCInitHeaps \cup EqHeaps, mrg |-> MergeHeaps,
+SumHeaps ==
+  {H1(CT34, "dense", "CT34"), H1(CT34, "csr_zeros", "CT34z"), H1(CT23, "csr_unsorted", "CT23u"), H1(CT23, "csc", "CT23c"),
+   H1(F23num, "dense", "F23num"), H1(F33dense, "coo", "F33dense"), H1(T33, "csr_zeros", "T33z"), H1(T23, "lil", "T23"),
+   H1(F31, "dense", "F31"), H1(F13, "csr_zeros", "F13z"), H1(F24frac, "dense", "F24frac")}
+CtorHeaps ==
+  {H1(T23, "dense", "T23"), H1(T32, "dense", "T32"), H1(T33, "dense", "T33"), H1(T22, "dense", "T22"), H1(F11, "dense", "F11"),
+   H1(F13, "dense", "F13"), H1(F31, "dense", "F31"), H1(F24frac, "dense", "F24frac"), H1(CT34, "dense", "CT34"),
+   H1(F23num, "dense", "F23num"), H1(T23zero, "dense", "T23zero")}
+HeapSets == [sum |-> SumHeaps, ctor |-> CtorHeaps, files |-> FileHeaps, json |-> JsonHeaps,std |-> MCInitHeaps, eq |-> EqHeaps, all |-> MCInitHeaps \cup EqHeaps, mrg |-> MergeHeaps,
              cat |-> ConcatHeaps, cnt |-> CountHeaps, stdcnt |-> MCInitHeaps \cup CountHeaps]
 MCHeaps == HeapSets[IOEnv.GEN_HEAPS]
 
